@@ -188,6 +188,13 @@ def slice_clamping_as_encoded():
                 lo, hi = norm(a, 0), norm(b, L); want = [xs[lo + t] for t in range(max(hi - lo, 0))]
                 assert xs[a:b] == want; n += 1
     return n
+@test("C16")
+def nested_floor_division():
+    n = 0
+    for a in range(-40, 400, 7):
+        for b in range(1, 9):
+            for c in range(1, 9): assert (a // b) // c == a // (b * c); n += 1
+    return n
 @test("C06")
 def column_stack_transposes():
     import numpy as np
